@@ -9,7 +9,10 @@ import (
 	"crypto/sha256"
 	"encoding/json"
 	"fmt"
+	"io"
 	"math/rand"
+	"net/http"
+	"strings"
 	"sync"
 
 	gojose "github.com/go-jose/go-jose/v3"
@@ -331,6 +334,29 @@ func lifecycleCase(r *rand.Rand, idx int) caseOut {
 		captured = append(captured, req)
 		return []byte(`{"@context":["https://www.w3.org/ns/did/v1"],"id":"did:ex:1"}`), nil
 	}))
+	// every fourth client lifecycle goes through the client's own HTTP transport (no network: a round
+	// tripper stands in for the node); the cached endpoint is stale and answers 503 after reading the
+	// request, so what the node receives is what the retry delivers
+	viaHTTP := useClient && idx%4 == 2
+	endpoints := func(disableCache bool) ([]string, error) {
+		if disableCache {
+			return []string{"http://node.invalid/operations"}, nil
+		}
+		return []string{"http://stale.invalid/operations"}, nil
+	}
+	if viaHTTP {
+		cl = sidetree.New(sidetree.WithHTTPClient(&http.Client{Transport: roundTripFunc(func(req *http.Request) (*http.Response, error) {
+			body, _ := io.ReadAll(req.Body)
+			mk := func(code int, text string) *http.Response {
+				return &http.Response{StatusCode: code, Body: io.NopCloser(strings.NewReader(text)), Header: http.Header{}, Request: req}
+			}
+			if req.URL.Host == "stale.invalid" {
+				return mk(http.StatusServiceUnavailable, "stale endpoint"), nil
+			}
+			captured = append(captured, body)
+			return mk(http.StatusOK, `{"didDocument":{"@context":["https://www.w3.org/ns/did/v1"],"id":"did:ex:1"}}`), nil
+		})}))
+	}
 	exp := &expDoc{}
 	var origin interface{}
 	var steps []lifeStep
@@ -338,7 +364,9 @@ func lifecycleCase(r *rand.Rand, idx int) caseOut {
 	if zeroLead {
 		label += ",zero-lead-coordinates"
 	}
-	if useClient {
+	if viaHTTP {
+		label += ",sidetree-client-over-http-with-stale-endpoint"
+	} else if useClient {
 		label += ",sidetree-client"
 	} else {
 		label += ",builders"
@@ -410,6 +438,9 @@ func lifecycleCase(r *rand.Rand, idx int) caseOut {
 		if r.Intn(2) == 0 {
 			origin = "origin.example"
 			opts = append(opts, create.WithAnchorOrigin("origin.example"))
+		}
+		if viaHTTP {
+			opts = append(opts, create.WithSidetreeEndpoint(endpoints))
 		}
 		_, err := cl.CreateDID(opts...)
 		if err != nil || len(captured) == 0 {
@@ -536,6 +567,9 @@ func lifecycleCase(r *rand.Rand, idx int) caseOut {
 				for _, a := range rmA {
 					opts = append(opts, update.WithRemoveAlsoKnownAs(a))
 				}
+				if viaHTTP {
+					opts = append(opts, update.WithSidetreeEndpoint(endpoints))
+				}
 				before := len(captured)
 				err := cl.UpdateDID(did, opts...)
 				if err != nil || len(captured) == before {
@@ -619,6 +653,9 @@ func lifecycleCase(r *rand.Rand, idx int) caseOut {
 				origin = "origin2.example"
 				opts = append(opts, recovery.WithAnchorOrigin("origin2.example"))
 			}
+			if viaHTTP {
+				opts = append(opts, recovery.WithSidetreeEndpoint(endpoints))
+			}
 			before := len(captured)
 			err := cl.RecoverDID(did, opts...)
 			if err != nil || len(captured) == before {
@@ -649,7 +686,11 @@ func lifecycleCase(r *rand.Rand, idx int) caseOut {
 		var dFrom, dUntil int64
 		if useClient {
 			before := len(captured)
-			err := cl.DeactivateDID(did, deactivate.WithSigner(recKey.signer()), deactivate.WithOperationCommitment(commitmentOf(recKey.jwk(), uint64(recCode))))
+			dopts := []deactivate.Option{deactivate.WithSigner(recKey.signer()), deactivate.WithOperationCommitment(commitmentOf(recKey.jwk(), uint64(recCode)))}
+			if viaHTTP {
+				dopts = append(dopts, deactivate.WithSidetreeEndpoint(endpoints))
+			}
+			err := cl.DeactivateDID(did, dopts...)
 			if err != nil || len(captured) == before {
 				steps = append(steps, lifeStep{"deactivate", nil, fmt.Errorf("%v", err)})
 			} else {
@@ -855,3 +896,7 @@ func builderRefusals(r *rand.Rand) []caseOut {
 func init() {
 	generators["C08"] = generator{"c08case", "judge_c08", histImports + "From Sidetree Require Import Harness.ClientCases.\n", genC08}
 }
+
+type roundTripFunc func(*http.Request) (*http.Response, error)
+
+func (f roundTripFunc) RoundTrip(r *http.Request) (*http.Response, error) { return f(r) }
